@@ -103,6 +103,10 @@ fn clauses(w: u32, order: &[u8]) -> Result<(), String> {
 pub fn run(run: &mut Run) -> PResult {
     run.rule = "all 52 cards x all 16 call sequences of distinct flag_as_* calls (every subset of the three marks in every order) compared against every unmarked card and every marked card with a smaller mark number; accessors against the unmarked card and the model's fields; idempotence; strip. Non-trivial = non-empty mark combinations on non-ace-of-spades cards (the suite marks A♠ only); distinct = distinct (card, sequence)".into();
     super::regress::replay_dir(run, "C20", check_case)?;
+    {
+        let items: Vec<(u32, Vec<u8>)> = card::DECK.iter().flat_map(|w| sequences().into_iter().map(move |s| (*w, s))).collect();
+        super::common::disturbance_pass(run, &items, &|it| clauses(it.0, &it.1), &|it| ("C20.marks".into(), json!({"word": hex(it.0), "sequence": it.1}), format!("{}:{:?}", card::render(it.0), it.1)))?;
+    }
     let seqs = sequences();
     let mut n = 0u64;
     let mut nt = 0u64;
@@ -173,6 +177,9 @@ pub fn run(run: &mut Run) -> PResult {
 }
 
 pub fn check_case(clause: &str, case: &Value) -> Result<(), String> {
+    if clause.ends_with(".after_disturbance") {
+        return super::common::replay_after_disturbance(case, check_case);
+    }
     if clause == "C20.sort" {
         return super::c11::sort_clause(&engine::parse_words(&case["words"])?);
     }
